@@ -216,6 +216,7 @@ func regions01(q *ref.Quote) map[string][2]int {
 }
 
 func c01(x *mon.Ctx) {
+	enableTwins(x)
 	if !x.Quick() {
 		defer func() {
 			x.Fuzz("FuzzVerifyRaw", 300000)
